@@ -101,7 +101,7 @@ def main(tier=None):
     writerlib.add_pool_suites(c, samples)
     # an identifier stays taken while its delivery is being retransmitted (whole broker, production pool)
     from checks import brokerlib
-    brokerlib.run_scenarios(c, "identifier-in-use-while-retransmitted", brokerlib.corpus(rng, ["retransmit-then-next", "fanout-unacked-retransmit", "slow-qos2"]), samples)
+    brokerlib.run_scenarios(c, "identifier-in-use-while-retransmitted", brokerlib.corpus(rng, ["retransmit-then-next", "fanout-unacked-retransmit", "slow-qos2"]) + [brokerlib.gen_broken_recipient_qos(rng) for _ in range(10 if c.tier == "quick" else 100)], samples)
     # an identifier comes back when its exchange is acknowledged or expires: the real in-flight queue under real deadlines
     from checks import c04
     c04.add_queue_suites(c, samples, exhaustive_n=2, n_random=600 if c.tier == "quick" else 10000)
